@@ -187,6 +187,7 @@ def run(ck):
                 ck.unknown("G-REFUSE", fn, what, str(m))
         D.check_crc_verified(ck, it, env, fn, "data", Lin({}, 0), Nl, f"{TC}.InvalidTcCrc16")
         n = D.check_xbuf(ck, it, fn)
+        D.check_short_refusals_justified(ck, it, fn, "data", N, "the declared packet length (a complete packet, also one followed by further octets, is accepted)")
         D.check_xdecl(ck, it, fn, "data", N)
         D.check_escape(ck, it, fn, allowed=("ValueError", P.cls(f"{TC}.InvalidTcCrc16").qual))
         D.check_independent(ck, it, env, dec, "data", fn)
